@@ -16,7 +16,7 @@ func init() {
 		ID:        "C03",
 		Roots:     []string{"overlord/state", "daemon"},
 		Technique: "constant/table agreement (statusOrder permutation, Ready() set by constant-folding its switch), who-may-write of the ready markers, guarded-sink / loop-latch / ordering reachability on Change.detectChangeReady, Change.Err, daemon.abortChange and the TaskRunner lock order",
-		Explanation: "Structural necessary conditions for 'every change settles; status consistent and monotone': (R1) statusOrder is a duplicate-free permutation of every Status constant except Default and Status.Ready() accepts exactly {Done, Undone, Hold, Error}; (R2) Change.readyTime and the ready channel are written only by markReady (first time only) and by unmarshalling, and detectChangeReady reaches markReady only after its loop advanced solely across the excluded task or tasks whose status is Ready(); (R3) daemon.abortChange aborts only a change that is not ready, and the only other caller of Change.Abort is State.Prune on a change with zero ready time; (R4) Change.Err reports nil only when the status is not Error, has no early exit from its task loop and skips a task only when its status is not Error; (R5) wherever TaskRunner code takes both locks, r.mu is taken before the state lock, and the functions documented to run with the state lock held take neither; (R6) no reviewed transition leaves a ready status except Done->Undo (abort of finished work).",
+		Explanation: "Structural necessary conditions for 'every change settles; status consistent and monotone': (R1) statusOrder is a duplicate-free permutation of every Status constant except Default and Status.Ready() accepts exactly {Done, Undone, Hold, Error}; (R2) Change.readyTime and the ready channel are written only by markReady (first time only) and by unmarshalling, and detectChangeReady reaches markReady only after its loop advanced solely across the excluded task or tasks whose status is Ready(); (R3) daemon.abortChange aborts only a change that is not ready, and the only other caller of Change.Abort is State.Prune on a change with zero ready time; (R4) Change.Err reports nil only when the status is not Error, has no early exit from its task loop, skips a task only when its status is not Error, and examines every line of a failed task's log (no first-match exit); (R5) wherever TaskRunner code takes both locks, r.mu is taken before the state lock, and the functions documented to run with the state lock held take neither; (R6) no reviewed transition leaves a ready status except Done->Undo (abort of finished work); (R7) in the wait aggregation (Change.isTaskWaiting) the dependency statuses that leave the verdict untouched are exactly the ready statuses, Wait forces it true, and Do/Undo recurse over WaitTasks/HaltTasks.",
 		NotDecided: "liveness proper (that handlers return); that the aggregate equals the documented function for every multiset of task statuses (isChangeWaiting / priority scan are value-level).",
 		Run:        runC03,
 	})
@@ -248,7 +248,7 @@ func runC03(c *Ctx) {
 	}
 
 	// ---- R4
-	c.Rule("C03-R4", "G+L", "Change.Err: nil only when Status()!=Error; no early exit from the task loop; a task is skipped only when its status is not Error", 3)
+	c.Rule("C03-R4", "G+L", "Change.Err: nil only when Status()!=Error; no early exit from the task loop; a task is skipped only when its status is not Error; every line of a failed task's log is examined", 3)
 	errFn := P.Func("overlord/state.(*Change).Err")
 	chStatus := P.FuncObj("overlord/state.(*Change).Status")
 	tStatus := P.FuncObj("overlord/state.(*Task).Status")
@@ -267,14 +267,48 @@ func runC03(c *Ctx) {
 		c.Check(!r.Found, "overlord/state.(*Change).Err#no-early-exit", rl.Body.Instrs[0].Pos(), "the loop over the change's tasks has no early exit", "Change.Err can stop before visiting every task: "+P.PathString(r.Path))
 		// skipping: next iteration without entering the log loop only across Status()!=Error
 		var inner *RangeLoop
-		for _, x := range RangeLoops(errFn) {
-			if x != rl && rl.Header.Dominates(x.Header) {
+		logObj := P.FuncObj("overlord/state.(*Task).Log")
+		for _, x := range LoopsOver(errFn, VRes(0, ToFn(logObj))) {
+			if x.Header != rl.Header && rl.Body.Dominates(x.Header) {
 				inner = x
 			}
 		}
-		if inner == nil {
-			c.Undecided("overlord/state.(*Change).Err#log-loop", errFn.Pos(), "inner loop over the task log not found")
+		// every logged error line is reported: the loop over task.Log() (here or in a same-package
+		// helper given the task) runs to exhaustion
+		exhaust := func(fn *ssa.Function, x *RangeLoop, where string) {
+			q := ReachQ{Fn: fn, From: &Loc{x.Body, -1},
+				CutEdge: func(b *ssa.BasicBlock, s int) bool { return b == x.Header && b.Succs[s] == x.Done },
+				Sink:    func(in ssa.Instruction) bool { _, ok := in.(*ssa.Return); return ok },
+				SinkEdge: func(b *ssa.BasicBlock, s int) bool { return b != x.Header && b.Succs[s] == x.Done }}
+			r := q.Run()
+			c.touch(fn)
+			c.Check(!r.Found, "overlord/state.(*Change).Err#log-loop-exhausted", x.Body.Instrs[0].Pos(), "every line of a failed task's log is examined ("+where+")", "the scan of a failed task's log in "+where+" can stop early (first ERROR line wins): the error the task finally failed with is dropped from the change error when an earlier non-fatal error was logged; path: "+P.PathString(r.Path))
+		}
+		if inner != nil {
+			exhaust(errFn, inner, "Change.Err")
 		} else {
+			found := false
+			for _, b := range errFn.Blocks {
+				for _, in := range b.Instrs {
+					ci, ok := in.(*ssa.Call)
+					if !ok || !rl.Body.Dominates(b) {
+						continue
+					}
+					sf := ci.Call.StaticCallee()
+					if sf == nil || sf.Blocks == nil || sf.Pkg != errFn.Pkg {
+						continue
+					}
+					for _, x := range LoopsOver(sf, VRes(0, ToFn(logObj))) {
+						found = true
+						exhaust(sf, x, SSAFuncName(sf))
+					}
+				}
+			}
+			if !found {
+				c.Undecided("overlord/state.(*Change).Err#log-loop", errFn.Pos(), "loop over the failed task's log not found in Err or a helper it calls")
+			}
+		}
+		if inner != nil {
 			notErr := Cmp("task.Status()!=Error", VRes(0, ToFn(tStatus)), token.NEQ, VConstObj(cErr))
 			q := ReachQ{Fn: errFn, From: &Loc{rl.Body, -1},
 				CutEdge:  func(b *ssa.BasicBlock, s int) bool { return AtomEdges(notErr)(b, s) || b.Succs[s] == inner.Header || b.Succs[s] == rl.Done },
@@ -360,6 +394,65 @@ func runC03(c *Ctx) {
 			leaves := s.From & ts.Ready
 			ok := leaves == 0 || (leaves == ts.Bit("Done") && to == "Undo")
 			c.Check(ok, fmt.Sprintf("%s#set-%s#%d", f, to, i+1), s.Call.Pos(), "transition "+ts.SiteString(s)+" does not leave a ready status (or is Done->Undo)", "transition "+ts.SiteString(s)+" leaves a ready status: a settled task (and change) becomes pending again")
+		}
+	}
+
+	// ---- R7
+	c.Rule("C03-R7", "T", "wait aggregation: in Change.isTaskWaiting the dependency statuses that leave the verdict untouched are exactly the ready statuses; a dependency in Wait makes the verdict true; Do/Undo recurse over WaitTasks/HaltTasks respectively", 3)
+	itw := P.Func("overlord/state.(*Change).isTaskWaiting")
+	c.touch(itw)
+	var depLoop *RangeLoop
+	for _, rl := range RangeLoops(itw) {
+		if rl.Coll != nil && IsParam(rl.Coll, itw, 3) {
+			depLoop = rl
+		}
+	}
+	if depLoop == nil || depLoop.Elem == nil {
+		c.Undecided("overlord/state.(*Change).isTaskWaiting#deps-loop", itw.Pos(), "loop over the deps parameter not recognised")
+	} else {
+		key := TaskKey(depLoop.Elem)
+		edges := ts.EdgeStates(itw, key, ts.All)
+		// the loop-carried verdict: a boolean phi in the loop header
+		var verdict *ssa.Phi
+		for _, in := range depLoop.Header.Instrs {
+			if phi, ok := in.(*ssa.Phi); ok && isBoolType(phi.Type()) {
+				verdict = phi
+			}
+		}
+		if verdict == nil {
+			c.Undecided("overlord/state.(*Change).isTaskWaiting#verdict", itw.Pos(), "loop-carried boolean verdict not found in the loop header")
+		} else {
+			var keep, setTrue uint32
+			recur := map[string]uint32{}
+			for i, pb := range depLoop.Header.Preds {
+				st := edges[[2]*ssa.BasicBlock{pb, depLoop.Header}]
+				if !depLoop.Header.Dominates(pb) {
+					continue // entry edge
+				}
+				e := verdict.Edges[i]
+				switch {
+				case e == ssa.Value(verdict):
+					keep |= st
+				case func() bool { v, ok := ConstBool(e); return ok && v }():
+					setTrue |= st
+				default:
+					if cc, _, ok := CallResult(e); ok && ToFn(P.FuncObj("overlord/state.(*Change).isTaskWaiting"))(cc) {
+						a := cc.Common().Args
+						which := "?"
+						if len(a) == 4 {
+							if VRes(0, ToFn(P.FuncObj("overlord/state.(*Task).WaitTasks")))(a[3]) {
+								which = "WaitTasks"
+							} else if VRes(0, ToFn(P.FuncObj("overlord/state.(*Task).HaltTasks")))(a[3]) {
+								which = "HaltTasks"
+							}
+						}
+						recur[which] |= st
+					}
+				}
+			}
+			c.Check(keep == ts.Ready, "overlord/state.(*Change).isTaskWaiting#settled-deps", verdict.Pos(), "dependencies that do not affect the verdict: "+ts.SetString(keep), fmt.Sprintf("dependencies in %s leave the wait verdict untouched; it must be exactly the ready statuses %s (a Hold/Error/Done/Undone sibling must not turn a waiting change into a running one)", ts.SetString(keep), ts.SetString(ts.Ready)))
+			c.Check(setTrue == ts.Bit("Wait"), "overlord/state.(*Change).isTaskWaiting#wait-dep", verdict.Pos(), "a dependency in Wait makes the verdict true", fmt.Sprintf("the verdict is forced true for dependencies in %s, expected {Wait}", ts.SetString(setTrue)))
+			c.Check(recur["WaitTasks"] == ts.Bit("Do") && recur["HaltTasks"] == ts.Bit("Undo") && len(recur) == 2, "overlord/state.(*Change).isTaskWaiting#recursion", verdict.Pos(), "Do recurses over WaitTasks, Undo over HaltTasks", fmt.Sprintf("recursion table is WaitTasks:%s HaltTasks:%s other:%s; expected Do over WaitTasks and Undo over HaltTasks", ts.SetString(recur["WaitTasks"]), ts.SetString(recur["HaltTasks"]), ts.SetString(recur["?"])))
 		}
 	}
 }
